@@ -216,7 +216,12 @@ fn h1_box(prop: &str, thorough: bool) -> Vec<(Body, usize)> {
     for &t in threads {
         for &q in queues {
             for s in 0..=max_sets {
-                let bound = bound_for(t, q, s, thorough);
+                let mut bound = bound_for(t, q, s, thorough);
+                // C08 / C15 have many variants per configuration: two workers with two preemptions
+                // only on the smallest configuration (measured: 4.5 M schedules per variant there)
+                if (prop == "C08" || prop == "C15") && t >= 2 && bound >= 2 && (q, s) != (1, 1) {
+                    bound = 1;
+                }
                 let mut push = |c: H1, b: usize| v.push((Body::H1(c), b));
                 let base = H1 { threads: t, queue: q, sets: s, err_at: None, consumer: Consumer::Drain, reader_init_fails: false, dataset_init_fail_at: None };
                 match prop {
@@ -488,6 +493,20 @@ fn main() {
         for bound in 0..=*maxb {
             jobs.push(Job { body: b.clone(), bound, max_executions: if thorough { 40_000_000 } else { 3_000_000 }, prefix: vec![] });
         }
+    }
+    if std::env::var("PARMC_DRY").is_ok() {
+        let mut m: std::collections::BTreeMap<String, usize> = Default::default();
+        for j in &jobs {
+            let (t, q, s2, kind) = match &j.body {
+                Body::H1(c) => (c.threads, c.queue, c.sets, "H1"),
+                Body::H2(c) => (c.threads, c.queue, 0, "H2"),
+            };
+            *m.entry(format!("{} t{} q{} s{} P{}", kind, t, q, s2, j.bound)).or_insert(0) += 1;
+        }
+        for (k, v) in m {
+            println!("{} x{}", k, v);
+        }
+        return;
     }
     // Partition the big searches (2 workers with preemptions, or bound >= 3) by choice prefixes of
     // fixed depth so that they spread over all cores. The prefixes are enumerated by a pass of the
